@@ -113,3 +113,26 @@ Proof.
   pose proof (format_reparse P py_cc_ok fs e) as RP. rewrite ET in RP.
   specialize (RP W Wc). unfold ei_text in RP. rewrite RP, rtb_eqb_refl. reflexivity.
 Qed.
+
+(* ---- call stacks ------------------------------------------------------------------------------------- *)
+Theorem stack_format fs :
+  tbi_formatted P (map cp_of_live fs) = L_header ++ NL ++ spec_stack_lines fs.
+Proof.
+  unfold tbi_formatted, spec_stack_lines. change M_header with L_header. change M_nl with NL.
+  f_equal. f_equal. exact (tbi_fold_std P fs None 0).
+Qed.
+
+Theorem stack_sound fs :
+  let cs := map cp_of_live fs in
+  let one := match rev cs with c :: _ => tb_frame_str P c | [] => [] end in
+  stack_verdict fs (spec_stack_lines fs)
+    (map (fun c => mkCpObs (cp_path c) (cp_lineno c) (cp_func c) (deferred_str P (cp_raw c))) cs)
+    (tbi_formatted P cs) one one = (true, true, false).
+Proof.
+  cbv zeta. unfold stack_verdict.
+  rewrite cp_obs_list_refl, !str_eqb_refl, frames_match_model, stack_format, str_eqb_refl. cbn [andb].
+  assert (E : match rev (map cp_of_live fs) with c :: _ => tb_frame_str P c | [] => [] end = last_entry_text fs).
+  { unfold last_entry_text. rewrite <- map_rev. destruct (rev fs) as [|l r]; [reflexivity|].
+    cbn [map]. apply tb_frame_str_std. }
+  rewrite E, str_eqb_refl. reflexivity.
+Qed.
